@@ -104,6 +104,32 @@ def nontrivial(prog, steps):
     return cl >= 2 and shrink
 
 
+def item_scopes():
+    """mapped-list item scopes (map_keyed / map_indexed): cleanups of leaving items run exactly once, one live scope per item --
+    the real functions through harness/list-driver, judged by C07's oracle restricted to its ownership clauses"""
+    import random
+    import c07
+    import vlib
+    okb, outb, binp = vlib.cargo_build("list-driver")
+    if not okb:
+        return [("mapped-list item scopes: cargo build list-driver", False, outb[-600:])]
+    rng = random.Random(4)
+    chains = [c for c in c07.gen("quick", rng) if c[1] != "dupkeys"]
+    rc, so, se = vlib.run_driver(binp, "\n".join(c07.fmt_chain(m, ch) for m, _, ch in chains) + "\n")
+    blocks = so.rstrip("\n").split("\n==\n")
+    if rc != 0 or len(blocks) != len(chains):
+        return [("mapped-list item scopes: list-driver run", False, se[-600:])]
+    bad = []
+    for (m, tag, ch), b in zip(chains, blocks):
+        fails, _ = c07.oracle(m, ch, [c07.parse_line(l) for l in b.split("\n")])
+        own = [f for f in fails if f["what"].startswith(("cleanups run exactly once", "one live item scope"))]
+        if own or b.startswith("PANIC"):
+            bad.append({"chain": c07.fmt_chain(m, ch), "failures": own[:2] or "panic"})
+    bad.sort(key=lambda x: len(x["chain"]))
+    return [("mapped-list item scopes: cleanups of leavers exactly once and one live scope per item on %d chains of map_keyed / map_indexed" % len(chains),
+             not bad, str(bad[:1]), bad[0] if bad else None)]
+
+
 def main(argv):
     return rcheck.run(
         PID, argv, module="C04", theorems=["C04_program_final_state", "C04_dispose_not_alive", "C04_dispose_leak_free", "C04_dispose_no_edges",
@@ -111,4 +137,5 @@ def main(argv):
         rule=("random ownership trees (scopes, effects creating effects/memos/signals/cleanups, run_in) x interleavings of "
               "re-runs, explicit disposals (also from callbacks and cleanups), closed by disposal of the root; non-trivial = "
               ">= 2 cleanups ran and some node was destroyed before the root disposal; distinct = distinct program text"),
-        assumptions=["mapped-list item scopes are exercised by C07's check, not here"])
+        assumptions=["mapped-list item scopes are outside the scenario language: they are judged here through harness/list-driver with C07's oracle (ownership clauses), and proved on the model in C07 (C07_keyed_history)"],
+        extra_obligations=item_scopes)
